@@ -4,6 +4,7 @@ Request dispatch for `Driver.lean`.
 import ToastyVerif.Gen.Pyramid
 import ToastyVerif.Gen.Study
 import ToastyVerif.Model.Pyramid
+import ToastyVerif.Model.Select
 
 namespace Driver
 
@@ -151,6 +152,70 @@ def handlePyr (op : String) (a : List String) : String :=
       | none => "bad-op"
   | _, _ => "bad-op"
 
+/-! ### HDU / WCS-key selection -/
+
+def parseHduSpec (s : String) : Option Select.HduSpec :=
+  if s = "g" then some .guess
+  else if s.startsWith "s:" then (s.drop 2).toString.toInt?.map .scalar
+  else if s = "l:" then some (.list [])
+  else if s.startsWith "l:" then (((s.drop 2).toString.splitOn ",").mapM String.toInt?).map .list
+  else none
+
+def parseKinds (s : String) : Option (List Select.HduKind) :=
+  if s = "-" then some [] else
+  (s.splitOn ",").mapM fun t =>
+    match (t.splitOn ":").mapM String.toNat? with
+    | some [a, n, b] => some ⟨a != 0, n, b != 0⟩
+    | _ => none
+
+def unblank (s : String) : String := if s = "_" then " " else s
+def reblank (s : String) : String := if s = " " then "_" else s
+
+def parseKeySpec (s : String) : Option Select.KeySpec :=
+  if s = "d" then some .default
+  else if s.startsWith "s:" then some (.scalar (unblank (s.drop 2).toString))
+  else if s.startsWith "l:" then some (.list (((s.drop 2).toString.splitOn ",").map unblank))
+  else none
+
+/-- `CollectionLoader.create_from_args` on `--hdu-index` (canonical decimal strings only) -/
+def cliHdu (s : String) : String :=
+  match s.toInt? with
+  | some k => s!"s:{k}"
+  | none => match (s.splitOn ",").mapM String.toInt? with
+    | some ks => "l:" ++ ",".intercalate (ks.map toString)
+    | none => "error"
+
+def allowedKey (k : String) : Bool :=
+  k.length == 1 && (k == " " || (k.toList.all fun c => 'A' ≤ c && c ≤ 'Z'))
+
+/-- `create_from_args` on `--wcs-key` -/
+def cliKey (s : String) : String :=
+  let keys := (s.splitOn ",").map unblank
+  if keys.all allowedKey then
+    match keys with
+    | [k] => "s:" ++ reblank k
+    | ks => "l:" ++ ",".intercalate (ks.map reblank)
+  else "error"
+
+def handleScan (op : String) (a : List String) : String :=
+  match op, a with
+  | "select", [spec, i, kinds] =>
+      match parseHduSpec spec, i.toNat?, parseKinds kinds with
+      | some sp, some i, some ks => match Select.select sp i ks with
+        | .ok rep rd => s!"ok {rep} {rd}"
+        | .indexError => "index-error"
+        | .rejectedTable => "rejected-table"
+      | _, _, _ => "bad-op"
+  | "key", [spec, i] =>
+      match parseKeySpec spec, i.toNat? with
+      | some sp, some i => match Select.key sp i with
+        | some k => reblank k
+        | none => "index-error"
+      | _, _ => "bad-op"
+  | "cli_hdu", [s] => cliHdu s
+  | "cli_key", [s] => cliKey s
+  | _, _ => "bad-op"
+
 def handle (toks : List String) : String :=
   match toks with
   | "gen" :: op :: args => match ints args with
@@ -160,6 +225,7 @@ def handle (toks : List String) : String :=
       | some a => handleStudy op a
       | none => "bad-op"
   | "pyr" :: op :: args => handlePyr op args
+  | "scan" :: op :: args => handleScan op args
   | _ => "bad-op"
 
 end Driver
